@@ -241,6 +241,61 @@ def case_total(**p):
       K = sym.symbolic('w', (2, 1))
       _total_queries(case, label + (':stretch' if norm == 2 else '') + ':constraint', trc, [K], {}, dict(w=K),
                      dict(fn='linear', cfg=cfg, part='constraint'))
+    # a third input that takes part in no dominance, with every kind of range (also an empty one)
+    for rng2, norm in itertools.product(((None, None), (2.0, 2.0), (-1.0, 1.0), (0.0, None)), (None, 1)):
+      cfg = dict(num_input_dims=3, monotonicities=[1, 1, 0], range_dominances=[(0, 1)], input_min=[0.0, 0.0, rng2[0]], input_max=[1.0, 2.0, rng2[1]],
+                 normalization_order=norm)
+      label = 'linear:%s' % json.dumps(cfg, separators=(',', ':'))
+
+      def mk3(cfg=cfg):
+        layer = L.Linear(**cfg)
+        layer.build(tf.TensorShape([None, 3]))
+        return layer
+      layer, why = _try(mk3)
+      if layer is None:
+        rejected += 1
+        continue
+      accepted += 1
+      con = layer.kernel.constraint
+      trc = Traced(lambda w, con=con: con(w), [tf.TensorSpec([3, 1], tf.float32)], name='LinearConstraints')
+      sym.new_ctx()
+      K = sym.symbolic('w', (3, 1))
+      _total_queries(case, label + ':constraint', trc, [K], {}, dict(w=K), dict(fn='linear', cfg=cfg, part='constraint'))
+  elif kind == 'lattice-call':
+    # evaluation of an accepted layer on every finite input of a stated box around the lattice, clipped or not
+    from tensorflow_lattice.python import lattice_layer as LL, lattice_lib as ll
+    case.encoded(LL.Lattice.call, ll.evaluate_with_simplex_interpolation, ll.evaluate_with_hypercube_interpolation)
+    sizes = p['sizes']
+    n = int(np.prod(sizes))
+    for interp, clip in itertools.product(('simplex', 'hypercube'), (True, False)):
+      cfg = dict(lattice_sizes=sizes, interpolation=interp, clip_inputs=clip, kernel_initializer='zeros')
+      label = 'lattice:%s' % json.dumps(cfg, separators=(',', ':'))
+
+      def mkl(cfg=cfg):
+        layer = L.Lattice(**cfg)
+        layer.build(tf.TensorShape([None, len(sizes)]))
+        return layer
+      layer, why = _try(mkl)
+      if layer is None:
+        rejected += 1
+        continue
+      accepted += 1
+      tcall = Traced(lambda x, layer=layer: layer(x), [tf.TensorSpec([1, len(sizes)], tf.float32)], name='Lattice.call')
+      replay_ = dict(fn='lattice', cfg=cfg, part='call')
+
+      def build(extra, leaf, layer=layer, tcall=tcall, label=label, replay_=replay_):
+        c = sym.new_ctx()
+        x = sym.symbolic('x', (1, len(sizes)))
+        K = sym.symbolic('w', (n, 1))
+        box = [z3.And(x[0, d] >= -2, x[0, d] <= sizes[d] + 1) for d in range(len(sizes))]
+        c.case_assumptions = box + list(extra)
+        tag = label + ':call' + (':leaf=' + leaf if leaf else '')
+        try:
+          _total_queries(case, tag, tcall, [x], {layer.kernel.ref(): K}, dict(x=x, w=K), replay_)
+        except sym.Undefined as e:
+          case.solve('accepted-configuration-is-total[%s]' % tag, z3.BoolVal(True), witness=dict(x=x, w=K), timeout=60,
+                     sig=dict(query='total', label='lattice', why=str(e)[:60]), replay=replay_)
+      core.split_run(build, budget=[p.get('budget', 150)])
   elif kind == 'categorical':
     from tensorflow_lattice.python import categorical_calibration_layer as CL
     case.encoded(CL.CategoricalCalibration.__init__, CL.CategoricalCalibration.build, CL.CategoricalCalibrationConstraints.__call__)
@@ -294,7 +349,8 @@ def case_total(**p):
       _total_queries(case, label + ':constraint', trc, [K], {layer.scale.ref(): S}, dict(k=K, s=S), dict(fn='kfl', cfg=cfg, part='constraint'))
   case.meta.update(accepted=accepted, rejected=rejected)
   case.record('twin:some-configuration-accepted', 'sat' if accepted else 'unsat', expect='sat', kind='twin')
-  case.record('twin:some-configuration-rejected', 'sat' if rejected else 'unsat', expect='sat', kind='twin')
+  if kind != 'lattice-call':
+    case.record('twin:some-configuration-rejected', 'sat' if rejected else 'unsat', expect='sat', kind='twin')
   return case
 
 
@@ -364,6 +420,52 @@ def case_synonyms(**p):
   return case
 
 
+def _init_pairs():
+  import tensorflow_lattice as tfl
+  L = tfl.layers
+  return [
+      ('lattice init increasing/none vs 1/0', lambda: L.Lattice(lattice_sizes=[2, 2], monotonicities=['increasing', 'none'], output_min=0.0, output_max=1.0),
+       lambda: L.Lattice(lattice_sizes=[2, 2], monotonicities=[1, 0], output_min=0.0, output_max=1.0), [None, 2]),
+      ('lattice init none + peak/valley vs 0 + -1/1', lambda: L.Lattice(lattice_sizes=[3, 3], monotonicities=['none', 'none'], unimodalities=['peak', 'valley'], output_min=0.0, output_max=1.0),
+       lambda: L.Lattice(lattice_sizes=[3, 3], monotonicities=[0, 0], unimodalities=[-1, 1], output_min=0.0, output_max=1.0), [None, 2]),
+      ('lattice init 3-d mixed, units 2', lambda: L.Lattice(lattice_sizes=[3, 2, 2], units=2, monotonicities=['none', 'increasing', 'none'], unimodalities=['valley', 'none', 'none'], output_min=-1.0, output_max=2.0),
+       lambda: L.Lattice(lattice_sizes=[3, 2, 2], units=2, monotonicities=[0, 1, 0], unimodalities=[1, 0, 0], output_min=-1.0, output_max=2.0), [None, 2, 3]),
+      ('lattice init random_uniform_or_linear', lambda: L.Lattice(lattice_sizes=[2, 3], monotonicities=['increasing', 'none'], kernel_initializer='random_uniform_or_linear_initializer', output_min=0.0, output_max=1.0),
+       lambda: L.Lattice(lattice_sizes=[2, 3], monotonicities=[1, 0], kernel_initializer='random_uniform_or_linear_initializer', output_min=0.0, output_max=1.0), [None, 2]),
+      ('pwl init decreasing vs -1 (equal_heights)', lambda: L.PWLCalibration(input_keypoints=[0.0, 1.0, 3.0, 4.0], monotonicity='decreasing', output_min=0.0, output_max=1.0),
+       lambda: L.PWLCalibration(input_keypoints=[0.0, 1.0, 3.0, 4.0], monotonicity=-1, output_min=0.0, output_max=1.0), [None, 1]),
+      ('pwl init none vs 0 (equal_slopes)', lambda: L.PWLCalibration(input_keypoints=[0.0, 1.0, 3.0, 4.0], monotonicity='none', kernel_initializer='equal_slopes', output_min=-1.0, output_max=1.0),
+       lambda: L.PWLCalibration(input_keypoints=[0.0, 1.0, 3.0, 4.0], monotonicity=0, kernel_initializer='equal_slopes', output_min=-1.0, output_max=1.0), [None, 1]),
+      ('pwl init increasing/convex vs 1/1', lambda: L.PWLCalibration(input_keypoints=[0.0, 1.0, 3.0], units=2, monotonicity='increasing', convexity='convex', output_min=0.0, output_max=2.0),
+       lambda: L.PWLCalibration(input_keypoints=[0.0, 1.0, 3.0], units=2, monotonicity=1, convexity=1, output_min=0.0, output_max=2.0), [None, 2]),
+  ]
+
+
+def case_synonym_inits(**p):
+  """freshly built layers: both spellings start from the same weights (deterministic initializers; executed, not solved)"""
+  import tensorflow as tf
+  case = Case(PROP, p['name'], {})
+  for label, mk_a, mk_b, shape in _init_pairs():
+    r = _init_compare(label)
+    case.record('synonymous-spellings-give-identical-initial-weights[%s]' % label, 'sat' if r['reproduced'] else 'unsat', kind='structural',
+                witness={}, replay=dict(fn='syn-init', label=label), sig=dict(query='synonym-init', label=label), note=str(r['detail'])[:200])
+  return case
+
+
+def _init_compare(label):
+  import tensorflow as tf
+  for lab, mk_a, mk_b, shape in _init_pairs():
+    if lab != label:
+      continue
+    la, lb = mk_a(), mk_b()
+    la.build(tf.TensorShape(shape))
+    lb.build(tf.TensorShape(shape))
+    wa, wb = la.get_weights(), lb.get_weights()
+    same = len(wa) == len(wb) and all(x.shape == y.shape and np.allclose(x, y, atol=1e-6, equal_nan=False) for x, y in zip(wa, wb))
+    return dict(reproduced=not same, detail=dict(spelled=[w.tolist() for w in wa], canonical=[w.tolist() for w in wb]) if not same else 'identical')
+  return dict(reproduced=False, detail='unknown label')
+
+
 # ---------------------------------------------------------------- (4) CrossHair on canonicalize helpers
 def case_canon(**p):
   case = Case(PROP, p['name'], {})
@@ -393,6 +495,8 @@ def case_canon(**p):
 
 def replay(r):
   rp = r['replay']
+  if rp['fn'] == 'syn-init':
+    return _init_compare(rp['label'])
   if rp['fn'] == 'reject':
     for entry in _reject_table():
       label, thunk = entry[0], entry[1]
@@ -416,7 +520,7 @@ def replay(r):
     if isinstance(cfg.get(k_), list) and cfg[k_] and isinstance(cfg[k_][0], list):
       cfg[k_] = [tuple(t) for t in cfg[k_]]
   layer = cls(**cfg)
-  shape = dict(lattice=[None, len(cfg.get('lattice_sizes', [0, 0]))] if rp['fn'] == 'lattice' else None, pwl=[None, 1], linear=[None, 2],
+  shape = dict(lattice=[None, len(cfg.get('lattice_sizes', [0, 0]))] if rp['fn'] == 'lattice' else None, pwl=[None, 1], linear=[None, cfg.get('num_input_dims', 2)],
                categorical=[None, 1], kfl=[None, 2])[rp['fn']]
   layer.build(tf.TensorShape(shape))
   try:
@@ -436,11 +540,17 @@ def replay(r):
 def cases(tier, seed):
   out = [dict(name='must-reject', fn='case_reject', params=dict(name='must-reject'), cap=900),
          dict(name='synonyms', fn='case_synonyms', params=dict(name='synonyms'), cap=900),
+         dict(name='synonym-inits', fn='case_synonym_inits', params=dict(name='synonym-inits'), cap=600),
          dict(name='canonicalize', fn='case_canon', params=dict(name='canonicalize'), cap=1200)]
   for kind, extra in (('lattice', dict(sizes=[2, 2])), ('lattice', dict(sizes=[3, 2])), ('pwl', {}), ('linear', {}), ('categorical', {}), ('kfl', {})):
     nm = 'total-%s%s' % (kind, 'x'.join(map(str, extra.get('sizes', []))))
     out.append(dict(name=nm, fn='case_total', params=dict(name=nm, layer=kind, **extra), cap=1800))
+  for sizes in ([3], [2, 3]):
+    nm = 'total-lattice-call%s' % 'x'.join(map(str, sizes))
+    out.append(dict(name=nm, fn='case_total', params=dict(name=nm, layer='lattice-call', sizes=sizes), cap=1800))
   if tier == 'thorough':
+    out.append(dict(name='total-lattice-call3x3', fn='case_total', params=dict(name='total-lattice-call3x3', layer='lattice-call', sizes=[3, 3], budget=400),
+                    cap=3600, required=False))
     out.append(dict(name='total-lattice2x2x2', fn='case_total', params=dict(name='total-lattice2x2x2', layer='lattice', sizes=[2, 2, 2]), cap=3600,
                     required=False))
   return out
